@@ -10,7 +10,11 @@ Inductive outcome := OMesh (m : mesh) | ODeclared | OCrash | OHang.
 Inductive case :=
 | CSpec (a : absfile) (f : plyfile) (out : outcome)   (* a: abstract file the harness' reference encoder started from;
                                                          f: what an independent tokenizer sees in the bytes given to polyform *)
-| CRaw (f : plyfile) (out : outcome).                 (* malformed / hand-made stream: model vs implementation only *)
+| CElems (a : absfile) (f : plyfile) (out : outcome)  (* as CSpec, but the file also holds elements the abstract file does
+                                                         not mention (before / between vertex and face): the agreement of
+                                                         header and body with the Coq reference encoder is not checked *)
+| CRaw (f : plyfile) (out : outcome).                 (* malformed stream or file outside the property's quantifier:
+                                                         model vs implementation only *)
 
 Definition outcome_matches (r : result mesh) (o : outcome) : bool :=
   match r, o with
@@ -50,13 +54,14 @@ Definition header_agrees (a : absfile) (f : plyfile) : bool :=
 Definition corr_ok (c : case) : bool :=
   match c with
   | CSpec a f out => header_agrees a f && body_agrees (enc_body a) (pf_body f) && outcome_matches (read_mesh f) out
+  | CElems a f out => outcome_matches (read_mesh f) out
   | CRaw f out => outcome_matches (read_mesh f) out
   end.
 
 (* the property itself on the implementation's output: the file loads, to the mesh the abstract file describes *)
 Definition prop_ok (c : case) : bool :=
   match c with
-  | CSpec a _ out =>
+  | CSpec a _ out | CElems a _ out =>
       match describe a, out with
       | Ok m, OMesh m' => mesh_eqb m m'
       | _, _ => false
